@@ -15,6 +15,8 @@ solver-enumerated selectors with a coverage query."""
 from __future__ import annotations
 
 import builtins
+import collections
+import types
 import copy
 import dataclasses
 import itertools
@@ -60,6 +62,14 @@ class OwnInit(p.Expression):
     def __init__(self, lo, tag="t"):
         object.__setattr__(self, "lo", lo)
         object.__setattr__(self, "tag", tag)
+
+
+@p.expr_dataclass()
+class KwOnlyFields(p.Expression):
+    """decorated user class with a keyword-only field and a field that is not an __init__ argument"""
+    arg: ExpressionT
+    kwf: int = dataclasses.field(default=0, kw_only=True)
+    nif: int = dataclasses.field(default=7, init=False)
 
 
 class PlainSub(p.Variable):
@@ -580,7 +590,9 @@ def concrete_instances(cls):
         alts = {"expr": leafs[1:], "exprs": [(x,), (y, x), (x, y, x), (1, y), (1.0, y), (True, y), ()],
                 "str": strs[1:], "optstr": ["n", "m"], "strs": [("u",), ("v", "u"), ()], "int": [1, 2],
                 "operator": ["<=", "==", "lt"], "mapping": [immutabledict({"k": y}), immutabledict({"j": x}),
-                                                             immutabledict({"k": x, "j": y}), {"k": x}],
+                                                             immutabledict({"k": x, "j": y}), {"k": x},
+                                                             types.MappingProxyType({"k": x}), collections.UserDict({"k": x}),
+                                                             collections.ChainMap({"k": x})],
                 "callable": [float, int]}[k]
         for alt in alts:
             args = list(base)
@@ -663,6 +675,10 @@ def check_conc(item, tier):
     for a, b in itertools.product(insts, insts):
         res.path_assertions += 1
         exp = struct_eq_concrete(a, b)
+        probe = _safe(lambda: (a == b, b == a, a != b, hash(a), hash(b)))
+        if probe[0] == "exc":
+            viol(f"raises:{a!r}|{b!r}", f"comparing / hashing {a!r} and {b!r} raised {probe[1]}")
+            continue
         got, got2 = a == b, b == a
         if bool(got) != exp or bool(got2) != exp or bool(a != b) == exp:
             viol(f"eq:{a!r}|{b!r}", f"{a!r} == {b!r} -> {got} / reversed {got2} / != {a != b}; fields equal -> {exp}")
@@ -820,6 +836,28 @@ def check_userdefs():
                         sig=f"userdef {type(o).__name__} {nm} prehash={prehash}", kind="userdef-copy",
                         detail=f"{nm}({o!r}) -> {_rep(r)}: copy not equal/hash-equal to the original or lost fields",
                         replay={"obj": repr(o), "op": nm}))
+    # keyword-only / init=False fields take part in equality, hashing, copying and pickling like every other field
+    k1, k2, k3 = KwOnlyFields(x, kwf=1), KwOnlyFields(x, kwf=2), KwOnlyFields(x, kwf=1)
+    k4 = KwOnlyFields(x, kwf=1)
+    object.__setattr__(k4, "nif", 8)
+    for nm, a_, b_, want in (("kw_only field differs", k1, k2, False), ("all fields equal", k1, k3, True),
+                             ("init=False field differs", k1, k4, False)):
+        res.path_assertions += 1
+        r = _safe(lambda: (bool(a_ == b_), bool(b_ == a_), (hash(a_) == hash(b_)) or not want, (b_ in {a_}) == want))
+        if r != ("val", (want, want, True, True)):
+            res.status = "violation"
+            res.violations.append(Violation(sig=f"userdef KwOnlyFields {nm}", kind="userdef-fields",
+                                            detail=f"{a_!r} vs {b_!r} ({nm}): (==, reversed, hash consistent, set membership) = {r}, "
+                                                   f"expected equality {want}", replay={"a": repr(a_), "b": repr(b_)}))
+    for nm, fn in (("copy", copy.copy), ("deepcopy", copy.deepcopy), ("pickle", lambda v: pickle.loads(pickle.dumps(v)))):
+        for o in (k2, k4):
+            res.path_assertions += 1
+            r = _safe(lambda: (lambda c_: (c_.arg == o.arg, c_.kwf == o.kwf, c_.nif == o.nif, c_ == o))(fn(o)))
+            if r != ("val", (True, True, True, True)):
+                res.status = "violation"
+                res.violations.append(Violation(sig=f"userdef KwOnlyFields {nm} kwf={o.kwf} nif={o.nif}", kind="userdef-copy",
+                                                detail=f"{nm}(KwOnlyFields(x, kwf={o.kwf}) with nif={o.nif}): fields (arg, kwf, nif) kept / equal = {r}",
+                                                replay={"op": nm}))
     res.paths = 1
     return res
 
